@@ -512,6 +512,9 @@ def patterns(draw, groups=True):
     body = seq(0)
     if draw(st.integers(0, 5)) == 0:
         body = '^' + body
+        if draw(st.booleans()):
+            # only the first branch of a top-level alternation is anchored
+            body = body + '|' + draw(_atoms())
     if draw(st.integers(0, 5)) == 0:
         body = body + '$'
     return body
